@@ -14,10 +14,11 @@
    Model switches (constants) select the behaviour as coded at the pinned commit or as repaired:
      WatcherByEpoch : FALSE = watcher waits for the flag VALUE Reconnecting (as coded); TRUE = waits for a new outage epoch
      HookCurrent    : FALSE = waitUntil passes the TARGET status to the closed-hook (as coded); TRUE = the current status
-     SwapGuarded    : FALSE = reconnect() panics when the status is not Reconnecting after a successful dial (as coded)  *)
+     SwapGuarded    : FALSE = reconnect() panics when the status is not Reconnecting after a successful dial (as coded)
+     SupervisorOrClosed : FALSE = the stream supervisor waits for Connected with WaitUntil (as coded): on a Closed connection it waits forever *)
 EXTENDS Integers, Sequences, FiniteSets, TLC, Json, SequencesExt, FiniteSetsExt
 
-CONSTANTS Streams, Callers, MaxFaults, MaxDialFails, MaxResumeNg, WatcherByEpoch, HookCurrent, SwapGuarded, AllowClose
+CONSTANTS Streams, Callers, MaxFaults, MaxDialFails, MaxResumeNg, WatcherByEpoch, HookCurrent, SwapGuarded, SupervisorOrClosed, AllowClose
 
 VARIABLES s, script
 vars == <<s, script>>
@@ -118,7 +119,8 @@ WatchCheck(y) ==
 \* supervisor: c.state.WaitUntil(Connected) (condition variable again)
 WaitConnCheck(y) ==
     /\ s.st[y].pc = "waitConn" /\ s.st[y].w = "woken"
-    /\ IF s.cs = "closed" THEN s' = [s EXCEPT !.st[y].pc = "dead", !.st[y].w = "none"]
+    /\ IF s.cs = "closed" THEN (IF SupervisorOrClosed THEN s' = [s EXCEPT !.st[y].pc = "dead", !.st[y].w = "none"]
+                                ELSE s' = [s EXCEPT !.st[y].w = "parked"])
        ELSE IF s.cs = "connected" THEN s' = [s EXCEPT !.st[y].pc = "resume", !.st[y].w = "none", !.st[y].bound = s.inc, !.st[y].ep = s.epoch]
        ELSE s' = [s EXCEPT !.st[y].w = "parked"]
     /\ Quiet
@@ -227,6 +229,8 @@ NoPanic == ~s.panic
 NoDialAfterClose == s.dialsAfterClose = 0
 \* C10: after Close, a call fails promptly with the sentinel: no caller is left parked on a Closed connection
 NoCallerParkedWhenClosed == \A p \in Callers : ~(s.cs = "closed" /\ s.ca[p].pc = "waitConn" /\ s.ca[p].w = "parked")
+\* C10: no goroutine left behind: no stream supervisor parked forever on a Closed connection
+NoSupervisorParkedWhenClosed == \A y \in Streams : ~(s.cs = "closed" /\ s.st[y].pc = "waitConn" /\ s.st[y].w = "parked")
 \* C10: silence on the wire after Disconnect
 SilentAfterDisconnect == ~s.sentAfterDisconnect
 
